@@ -295,6 +295,16 @@ def run():
                     e['key'] = ['n']
         verd = validate(rep, [dict(src=g['src'], tgt=g['tgt'], mode=g['mode'], agg=g['agg'], shape=g['shape'], ordered=g['ordered'],
                                    extra=[e if g['shape'] == 'field' else dict(key=['i', 0], x=e['x']) for e in g['extra']]) for g in good])
+        # the binding binds: a recorded join with its last emitted row removed must be rejected
+        import copy
+        probe = next((g for g in good if len(g['ordered']) >= 1 and g['shape'] == 'field'), None)
+        if probe is not None:
+            c1 = dict(src=probe['src'], tgt=probe['tgt'], mode=probe['mode'], agg=probe['agg'], shape=probe['shape'],
+                      ordered=copy.deepcopy(probe['ordered'])[:-1], extra=probe['extra'])
+            o1, _ = validate(rep, [c1])[0]
+            if o1:
+                raise tlc.MachineryError('JoinTrace accepted a recorded join with an output row removed: the trace spec does not bind')
+            rep.notes['trace_binding_selftest'] = 'a recorded join with its last output row removed is rejected'
         for g, (o_ok, e_ok) in zip(good, verd):
             rep.count(1, traces=1)
             rep.mark_distinct(g)
